@@ -574,6 +574,24 @@ func main() {
 		}
 	})
 
+	// AAC streams from an RFC 3640 reference packetiser (lal's own never fragments or aggregates): n
+	// access units, each in k fragments or m per packet, in order, through lal's depacketiser with
+	// reorder windows smaller than the stream is long
+	nRef := 0
+	for _, W := range []int{4, 8, 16, 1024} {
+		for _, k := range []int{1, 2, 3, 5} {
+			for _, m := range []int{1, 2, 5} {
+				for _, fs := range []uint16{0, 65500} {
+					if (k > 1 && m > 1) || k >= W {
+						continue // (a unit of more packets than the window holds cannot be assembled by design)
+					}
+					checkAacRef(r, W, k, m, fs, 60)
+					nRef++
+				}
+			}
+		}
+	}
+	r.Cov("aac_reference_streams", nRef)
 	// perturbations
 	shapes := [][]int{{1, 1, 1, 1, 1}, {3, 1, 1}, {1, 3, 1}, {1, 1, 3}, {2, 2, 1}, {2, 1, 2}}
 	if !r.Quick() {
@@ -630,4 +648,58 @@ func main() {
 		}
 	})
 	r.Finish()
+}
+
+// checkAacRef: n AUs, each split into k fragments (k > 1) or aggregated m per packet (m > 1).
+func checkAacRef(r *vk.Run, W, k, m int, firstSeq uint16, n int) {
+	r.Eval(1)
+	const clock = 48000
+	var units [][]byte
+	var raws [][]byte
+	seq := firstSeq
+	for i := 0; i < n; i++ {
+		units = append(units, body(40+i%7, byte(i*13+1)))
+	}
+	for i := 0; i < n; {
+		ts := uint32(i * 1024)
+		if k > 1 {
+			limit := (len(units[i])+k-1)/k + 4
+			frags := ref.PackAacHbrFrag(units[i], limit)
+			for j, p := range frags {
+				raws = append(raws, ref.BuildRtp(ref.Rtp{Marker: j == len(frags)-1, PT: 97, Seq: seq, Ts: ts, Ssrc: 5, Payload: p}))
+				seq++
+			}
+			i++
+			continue
+		}
+		e := i + m
+		if e > n {
+			e = n
+		}
+		raws = append(raws, ref.BuildRtp(ref.Rtp{Marker: true, PT: 97, Seq: seq, Ts: ts, Ssrc: 5, Payload: ref.PackAacHbrMulti(units[i:e])}))
+		seq++
+		i = e
+	}
+	got, tss, perr := lalUnpack("aac", clock, W, raws)
+	desc := fmt.Sprintf("W=%d fragments-per-AU=%d AUs-per-packet=%d first-seq=%d n=%d", W, k, m, firstSeq, n)
+	r.Class(fmt.Sprintf("aacref/W=%d/k=%d/m=%d/wrap=%v", W, k, m, firstSeq > 60000))
+	rp := replay{}
+	if perr != "" || !sameUnits(got, units) {
+		r.Violation(fmt.Sprintf("aacref/units/k=%d/m=%d", minI(k, 2), minI(m, 2)), fmt.Sprintf("%s: an in-order stream from the reference packetiser came out of lal's depacketiser as %d units, want %d (panic=%q)", desc, len(got), len(units), perr), rp)
+		return
+	}
+	for i, t := range tss {
+		want := int64(i) * 1024 * 1000 / clock
+		if d := t - want; d < -1 || d > 1 {
+			r.Violation("aacref/timestamp", fmt.Sprintf("%s: AU %d has timestamp %d ms, its media time is %d ms", desc, i, t, want), rp)
+			break
+		}
+	}
+}
+
+func minI(a, b int) int {
+	if a < b {
+		return a
+	}
+	return b
 }
